@@ -68,9 +68,14 @@ pub(crate) fn run_config_validate_with(
         )));
     }
 
-    // Phase 1: Direct parse for better syntax error messages
+    // Phase 1: Direct parse for better syntax error messages. A file carrying `$reset` markers is
+    // only checked for syntax here: a marker element (e.g. a `[[content.rules]]` entry that holds
+    // nothing but `pattern = "$reset"`) is not a typed rule, the loader strips it before typing
     let content = fs::read_to_string(config_path)?;
-    let _: Config = toml::from_str(&content)?;
+    let raw: toml::Value = toml::from_str(&content)?;
+    if !crate::config::merge::has_any_reset_markers(&raw) {
+        let _: Config = toml::from_str(&content)?;
+    }
 
     // Phase 2: Full load with extends chain and semantic validation
     let loaded = super::context::load_config(Some(config_path), false, no_extends, extends_policy)?;
